@@ -347,4 +347,481 @@ theorem procOne_error_iff (cfg : Cfg) (ok : Nat → Bool) (n : Nat) (rd : Round)
       simp [this.1, this.2]
 
 
+
+theorem procOne_batches (cfg : Cfg) (ok : Nat → Bool) (rd : Round) (st st' : St) (f : Nat)
+    (hr : procOne cfg ok rd st f = .ok st') : st'.batches = st.batches := by
+  unfold procOne at hr
+  split at hr
+  · cases hr; rfl
+  · split at hr
+    · split at hr
+      · split at hr
+        · cases hr; rfl
+        · cases hr
+      · cases hr
+    · cases hr
+      unfold succeed
+      simp only
+      split
+      · split <;> rfl
+      · rfl
+
+theorem inv_procAll (cfg : Cfg) (ok : Nat → Bool) (n : Nat) (rd : Round) (hv : cfg.variant.skipSuperseded = true) :
+    ∀ (w : List Nat) (st st' : St), Inv cfg ok n st w → procAll cfg ok rd st w = .ok st' →
+      Inv cfg ok n st' [] ∧ st'.batches = st.batches := by
+  intro w
+  induction w with
+  | nil => intro st st' h hr; simp only [procAll] at hr; cases hr; exact ⟨h, rfl⟩
+  | cons f w ih =>
+    intro st st' h hr
+    simp only [procAll] at hr
+    split at hr
+    · rename_i st1 h1
+      have := ih st1 st' (inv_procOne cfg ok n rd st st1 f w hv h h1) hr
+      exact ⟨this.1, this.2.trans (procOne_batches cfg ok rd st st1 f h1)⟩
+    · cases hr
+
+/-- an exception leaves the loop over `finished` only from `procOne`, in a state satisfying the invariant -/
+theorem procAll_error (cfg : Cfg) (ok : Nat → Bool) (n : Nat) (rd : Round) (hv : cfg.variant.skipSuperseded = true) :
+    ∀ (w : List Nat) (st st' : St) (o : Outcome), Inv cfg ok n st w → procAll cfg ok rd st w = .error (o, st') →
+      ∃ f w', Inv cfg ok n st' (f :: w') ∧ procOne cfg ok rd st' f = .error o := by
+  intro w
+  induction w with
+  | nil => intro st st' o h hr; simp only [procAll] at hr; cases hr
+  | cons f w ih =>
+    intro st st' o h hr
+    simp only [procAll] at hr
+    split at hr
+    · rename_i st1 h1
+      exact ih st1 st' o (inv_procOne cfg ok n rd st st1 f w hv h h1) hr
+    · rename_i o1 h1
+      cases hr
+      exact ⟨f, w, h, h1⟩
+
+/-! ### `should_launch_backup` never misses a key -/
+
+def ThrOK (t : Thresholds) : Prop := 1 ≤ t.minTasks ∧ 1 ≤ t.fracNum ∧ 1 ≤ t.fracDen
+
+theorem ceilDiv_pos (a b : Nat) (ha : 1 ≤ a) (hb : 1 ≤ b) : 1 ≤ ceilDiv a b := by
+  unfold ceilDiv
+  exact (Nat.le_div_iff_mul_le (by omega)).mpr (by omega)
+
+theorem shouldLaunch_ne_none (cfg : Cfg) (ok : Nat → Bool) (n : Nat) (thr : Thresholds) (st : St) (f : Nat) (now : Int)
+    (hthr : ThrOK thr) (h : Inv cfg ok n st []) (hp : st.pending f = true) :
+    shouldLaunch thr st f now ≠ none := by
+  unfold shouldLaunch
+  simp only
+  split
+  · simp
+  · rename_i hls
+    have hls : thr.minTasks ≤ lenDict st.nextId st.start := by omega
+    have hpos : 1 ≤ lenDict st.nextId st.start * thr.fracNum :=
+      Nat.mul_le_mul (Nat.le_trans hthr.1 hls) hthr.2.1
+    have hc := ceilDiv_pos _ thr.fracDen hpos hthr.2.2
+    split
+    · omega
+    · split
+      · simp
+      · rename_i hle
+        have hall : ∀ x ∈ (keys st.nextId (fun t => (st.end_ t).isSome)).map (durOf st), x.isSome = true := by
+          intro x hx
+          obtain ⟨t, ht, rfl⟩ := List.mem_map.mp hx
+          have ht' := (mem_keys _ _ _).mp ht
+          have hs := h.b4 t ht'.1
+          unfold durOf
+          cases he : st.end_ t with
+          | none => simp [he] at ht'
+          | some e =>
+            cases hs' : st.start t with
+            | none => simp [hs'] at hs
+            | some s => simp
+        obtain ⟨ds, hds, hlen⟩ := allSome_of_all _ hall
+        simp only [durations, hds]
+        have hsf := h.b4 f (h.b1 f hp)
+        cases hs' : st.start f with
+        | none => simp [hs'] at hsf
+        | some s =>
+          simp only
+          have he : lenDict st.nextId st.end_ = (keys st.nextId (fun t => (st.end_ t).isSome)).length := rfl
+          have hl : ceilDiv (lenDict st.nextId st.start * thr.fracNum) thr.fracDen - 1 < (isort ds).length := by
+            rw [isort_length, hlen, List.length_map, ← he]
+            omega
+          rw [List.getElem?_eq_getElem hl]
+          simp
+
+/-! ### the backup-launch loop -/
+
+theorem launchOne_spec (cfg : Cfg) (ok : Nat → Bool) (n : Nat) (rd : Round) (st : St) (f : Nat)
+    (hub : cfg.useBackups = true) (hg : cfg.variant.guardNotInBackups = true) (hthr : ThrOK cfg.thr)
+    (h : Inv cfg ok n st []) (hp : st.pending f = true) :
+    ∃ st', launchOne cfg rd st f = .ok st' ∧ Inv cfg ok n st' [] ∧ st'.batches = st.batches ∧
+      (∀ g, st.pending g = true → st'.pending g = true) := by
+  unfold launchOne
+  simp only [hg, Bool.true_and]
+  split
+  · exact ⟨st, rfl, h, rfl, fun _ hg => hg⟩
+  · rename_i hb
+    have hb : st.backups f = none := by
+      cases hx : st.backups f with
+      | none => rfl
+      | some t => simp [hx] at hb
+    have hne := shouldLaunch_ne_none cfg ok n cfg.thr st f rd.clkNow hthr h hp
+    cases hsl : shouldLaunch cfg.thr st f rd.clkNow with
+    | none => exact absurd hsl hne
+    | some r =>
+      cases r with
+      | false => exact ⟨st, rfl, h, rfl, fun _ hg => hg⟩
+      | true =>
+        have hlt := h.b1 f hp
+        have hts := (h.b3 f).mp hlt
+        cases hi : st.tasks f with
+        | none => simp [hi] at hts
+        | some i =>
+          refine ⟨addBackup st f i (rd.clkBackup f), rfl, inv_addBackup cfg ok n st f i _ hub h hp hb hi, rfl, ?_⟩
+          intro g hgp
+          have := h.b1 g hgp
+          simp only [addBackup, upd]
+          split
+          · rfl
+          · exact hgp
+
+theorem launchAll_spec (cfg : Cfg) (ok : Nat → Bool) (n : Nat) (rd : Round)
+    (hub : cfg.useBackups = true) (hg : cfg.variant.guardNotInBackups = true) (hthr : ThrOK cfg.thr) :
+    ∀ (l : List Nat) (st : St), Inv cfg ok n st [] → (∀ f, f ∈ l → st.pending f = true) →
+      ∃ st', launchAll cfg rd st l = .ok st' ∧ Inv cfg ok n st' [] ∧ st'.batches = st.batches := by
+  intro l
+  induction l with
+  | nil => intro st h _; exact ⟨st, rfl, h, rfl⟩
+  | cons f l ih =>
+    intro st h hl
+    obtain ⟨st1, h1, hinv, hbat, hmono⟩ := launchOne_spec cfg ok n rd st f hub hg hthr h (hl f (by simp))
+    obtain ⟨st2, h2, hinv2, hbat2⟩ := ih st1 hinv (fun g hgl => hmono g (hl g (List.mem_cons_of_mem _ hgl)))
+    refine ⟨st2, ?_, hinv2, hbat2.trans hbat⟩
+    simp only [launchAll, h1, h2]
+
+theorem pendOrderOf_pending (st : St) (rd : Round) (f : Nat) (hf : f ∈ pendOrderOf st rd) : st.pending f = true := by
+  unfold pendOrderOf at hf
+  rcases List.mem_append.mp hf with h1 | h1
+  · have := (mem_dedup _ _).mp h1
+    exact (List.mem_filter.mp this).2
+  · have := (List.mem_filter.mp h1).1
+    exact ((mem_keys _ _ _).mp this).2
+
+/-! ### submitting a batch -/
+
+theorem inv_batches_congr (cfg : Cfg) (ok : Nat → Bool) (n : Nat) (st : St) (w : List Nat) (bs' : List (List Nat))
+    (h : Inv cfg ok n st w) (hb : bs'.flatten = st.batches.flatten) : Inv cfg ok n { st with batches := bs' } w := by
+  obtain ⟨b1,b2,b3,b4,b5,b7,b8,b9,w1,w2,k0,k1,k3,k4,s1,e1,e2,e3,g1,g2,g3,p0,p1,p2,p5⟩ := h
+  refine ⟨b1,b2,b3,b4,b5,b7,b8,b9,w1,w2,k0,k1,k3,k4,s1,e1,e2,e3,g1,g2,g3,?_,?_,?_,?_⟩
+  · simpa [hb] using p0
+  · simpa [hb] using p1
+  · simpa [hb, Act] using p2
+  · simpa [hb] using p5
+
+theorem inv_submitBatch (cfg : Cfg) (ok : Nat → Bool) (n : Nat) (t : Int) (bs' : List (List Nat)) :
+    ∀ (b : List Nat) (st : St), Inv cfg ok n st [] → st.batches.flatten = b ++ bs'.flatten →
+      Inv cfg ok n (submitBatch t { st with batches := bs' } b) [] := by
+  intro b
+  induction b with
+  | nil =>
+    intro st h hb
+    exact inv_batches_congr cfg ok n st [] bs' h (by simpa using hb.symm)
+  | cons p q ih =>
+    intro st h hb
+    have h1 := inv_submitOne cfg ok n st p t (q :: bs') h (by simpa using hb)
+    have h2 := ih (submitOne t { st with batches := q :: bs' } p) h1 (by simp [submitOne])
+    exact h2
+
+theorem submitOne_facts (t : Int) (st : St) (p : Nat) :
+    (submitOne t st p).nextId = st.nextId + 1 ∧ (submitOne t st p).batches = st.batches ∧
+    (submitOne t st p).pending st.nextId = true ∧
+    (∀ g, st.pending g = true → (submitOne t st p).pending g = true) := by
+  refine ⟨rfl, rfl, by simp [submitOne, upd], ?_⟩
+  intro g hg
+  simp only [submitOne, upd]
+  split
+  · rfl
+  · exact hg
+
+theorem submitBatch_facts (t : Int) : ∀ (b : List Nat) (st : St),
+    st.nextId ≤ (submitBatch t st b).nextId ∧ (submitBatch t st b).batches = st.batches ∧
+    (∀ g, st.pending g = true → (submitBatch t st b).pending g = true) ∧
+    (b ≠ [] → ∃ g, g < (submitBatch t st b).nextId ∧ (submitBatch t st b).pending g = true) := by
+  intro b
+  induction b with
+  | nil => intro st; exact ⟨Nat.le_refl _, rfl, fun _ h => h, fun h => absurd rfl h⟩
+  | cons p q ih =>
+    intro st
+    obtain ⟨h1, h2, h3, h4⟩ := submitOne_facts t st p
+    obtain ⟨i1, i2, i3, _⟩ := ih (submitOne t st p)
+    refine ⟨by simp only [submitBatch, List.foldl_cons] at i1 ⊢; omega, by simpa [submitBatch] using i2.trans h2,
+            fun g hg => by simpa [submitBatch] using i3 g (h4 g hg), fun _ => ⟨st.nextId, ?_, ?_⟩⟩
+    · simp only [submitBatch, List.foldl_cons] at i1 ⊢; omega
+    · simpa [submitBatch] using i3 _ h3
+
+theorem anyPending_of (st : St) (g : Nat) (hg : g < st.nextId) (hp : st.pending g = true) : anyPending st = true := by
+  unfold anyPending pendingList
+  have : g ∈ keys st.nextId st.pending := (mem_keys _ _ _).mpr ⟨hg, hp⟩
+  cases hk : keys st.nextId st.pending with
+  | nil => simp [hk] at this
+  | cons a r => rfl
+
+/-- what holds at the head of the `while` loop besides `Inv` -/
+structure Head (cfg : Cfg) (st : St) : Prop where
+  nobatch : cfg.batchSize = none → st.batches = []
+  nonempty : ∀ b, b ∈ st.batches → b ≠ []
+  exhausted : anyPending st = false → st.batches = []
+
+theorem refill_spec (cfg : Cfg) (ok : Nat → Bool) (n : Nat) (rd : Round) (st : St)
+    (hv : cfg.variant.refillUpdates = true) (h0 : cfg.batchSize ≠ some 0)
+    (h : Inv cfg ok n st []) (hn : cfg.batchSize = none → st.batches = []) (hne : ∀ b, b ∈ st.batches → b ≠ []) :
+    Inv cfg ok n (refill cfg rd st) [] ∧ Head cfg (refill cfg rd st) := by
+  unfold refill
+  cases hbs : cfg.batchSize with
+  | none =>
+    simp only
+    exact ⟨h, ⟨fun _ => hn hbs, hne, fun _ => hn hbs⟩⟩
+  | some bs =>
+    simp only
+    split
+    · cases hb : st.batches with
+      | nil =>
+        simp only
+        exact ⟨h, ⟨fun _ => hb, by simp [hb], fun _ => hb⟩⟩
+      | cons b rest =>
+        simp only [hv, if_true]
+        have hinv := inv_submitBatch cfg ok n rd.clkRefill rest b st h (by simp [hb])
+        obtain ⟨f1, f2, f3, f4⟩ := submitBatch_facts rd.clkRefill b { st with batches := rest }
+        refine ⟨hinv, ⟨fun hc => by simp [hbs] at hc, ?_, ?_⟩⟩
+        · intro b' hb'
+          rw [f2] at hb'
+          exact hne b' (by simp [hb]; exact Or.inr hb')
+        · intro hany
+          obtain ⟨g, hg, hgp⟩ := f4 (hne b (by simp [hb]))
+          rw [anyPending_of _ g hg hgp] at hany
+          cases hany
+    · rename_i hlen
+      refine ⟨h, ⟨fun hc => by simp [hbs] at hc, hne, ?_⟩⟩
+      intro hany
+      exfalso
+      have hbs0 : bs ≠ 0 := by intro e; subst e; exact h0 hbs
+      have : (pendingList st).length ≠ 0 := by omega
+      unfold anyPending at hany
+      cases hp : pendingList st with
+      | nil => simp [hp] at this
+      | cons a r => simp [hp] at hany
+
+/-! ### `batched` and the code before the loop -/
+
+theorem batchedAux_spec (k : Nat) : ∀ (fuel : Nat) (l : List Nat), l.length ≤ fuel →
+    (batchedAux (k + 1) fuel l).flatten = l ∧ ∀ b, b ∈ batchedAux (k + 1) fuel l → b ≠ [] := by
+  intro fuel
+  induction fuel with
+  | zero =>
+    intro l hl
+    have : l = [] := List.eq_nil_of_length_eq_zero (by omega)
+    subst this
+    simp [batchedAux]
+  | succ fuel ih =>
+    intro l hl
+    cases l with
+    | nil => simp [batchedAux]
+    | cons x xs =>
+      simp only [batchedAux]
+      have hlen : ((x :: xs).drop (k + 1)).length ≤ fuel := by
+        simp only [List.length_drop, List.length_cons] at hl ⊢; omega
+      obtain ⟨i1, i2⟩ := ih _ hlen
+      constructor
+      · simp only [List.flatten_cons, i1]
+        exact List.take_append_drop _ _
+      · intro b hb
+        rcases List.mem_cons.mp hb with h1 | h1
+        · subst h1; simp
+        · exact i2 b h1
+
+theorem batched_spec (k : Nat) (l : List Nat) :
+    (batched (k + 1) l).flatten = l ∧ ∀ b, b ∈ batched (k + 1) l → b ≠ [] :=
+  batchedAux_spec k l.length l (Nat.le_refl _)
+
+theorem inv_empty (cfg : Cfg) (ok : Nat → Bool) (n : Nat) (bs0 : List (List Nat)) (hflat : bs0.flatten = List.range n) :
+    Inv cfg ok n { St.empty with batches := bs0 } [] := by
+  refine ⟨?_,?_,?_,?_,?_,?_,?_,?_,?_,?_,?_,?_,?_,?_,?_,?_,?_,?_,?_,?_,?_,?_,?_,?_,?_⟩
+  all_goals ((try simp only [St.empty, Act, hflat]); try simp)
+  all_goals first | exact List.nodup_range | (intro p hp; exact hp)
+
+theorem init_spec (cfg : Cfg) (ok : Nat → Bool) (n : Nat) (t0 : Int)
+    (hne : cfg.batchSize = none ∨ (0 < n ∧ cfg.batchSize ≠ some 0)) :
+    ∃ st, init cfg n t0 = .ok st ∧ Inv cfg ok n st [] ∧ Head cfg st := by
+  unfold init
+  cases hbs : cfg.batchSize with
+  | none =>
+    simp only
+    have h0 := inv_empty cfg ok n [List.range n] (by simp)
+    have h1 := inv_submitBatch cfg ok n t0 [] (List.range n) _ h0 (by simp)
+    obtain ⟨f1, f2, f3, f4⟩ := submitBatch_facts t0 (List.range n) St.empty
+    refine ⟨_, rfl, h1, ⟨fun _ => f2, ?_, fun _ => f2⟩⟩
+    intro b hb
+    rw [f2] at hb
+    simp [St.empty] at hb
+  | some bs =>
+    cases bs with
+    | zero => rcases hne with h | h <;> simp [hbs] at h
+    | succ k =>
+      have hn : 0 < n := by rcases hne with h | h; simp [hbs] at h; exact h.1
+      obtain ⟨s1, s2⟩ := batched_spec k (List.range n)
+      simp only
+      cases hb : batched (k + 1) (List.range n) with
+      | nil =>
+        rw [hb] at s1
+        have : (List.range n).length = 0 := by rw [← s1]; rfl
+        simp at this; omega
+      | cons b rest =>
+        simp only
+        rw [hb] at s1 s2
+        have h0 := inv_empty cfg ok n (b :: rest) s1
+        have h1 := inv_submitBatch cfg ok n t0 rest b _ h0 (by simp)
+        obtain ⟨f1, f2, f3, f4⟩ := submitBatch_facts t0 b { St.empty with batches := rest }
+        refine ⟨_, rfl, h1, ⟨fun hc => by simp [hbs] at hc, ?_, ?_⟩⟩
+        · intro b' hb'
+          rw [f2] at hb'
+          exact s2 b' (List.mem_cons_of_mem _ hb')
+        · intro hany
+          obtain ⟨g, hg, hgp⟩ := f4 (s2 b (by simp))
+          rw [anyPending_of _ g hg hgp] at hany
+          cases hany
+
+/-! ### one round, and the whole loop -/
+
+/-- the three facts about the code as it is that the proofs use -/
+structure IsFixed (cfg : Cfg) : Prop where
+  v : cfg.variant = Variant.fixed
+  thr : ThrOK cfg.thr
+  bs : cfg.batchSize ≠ some 0
+
+theorem stepRound_spec (cfg : Cfg) (ok : Nat → Bool) (n : Nat) (rd : Round) (st : St) (hfx : IsFixed cfg)
+    (h : Inv cfg ok n st []) (hh : Head cfg st) :
+    (∃ st', stepRound cfg ok rd st = .ok st' ∧ Inv cfg ok n st' [] ∧ Head cfg st') ∨
+    (∃ f w st', stepRound cfg ok rd st = .error (.raised f, st') ∧ Inv cfg ok n st' (f :: w) ∧
+        procOne cfg ok rd st' f = .error (.raised f)) := by
+  have hv1 : cfg.variant.skipSuperseded = true := by rw [hfx.v]; rfl
+  have hv2 : cfg.variant.guardNotInBackups = true := by rw [hfx.v]; rfl
+  have hv3 : cfg.variant.refillUpdates = true := by rw [hfx.v]; rfl
+  unfold stepRound
+  have hw := inv_wait cfg ok n st (dedup (rd.fin.filter st.pending))
+    (fun f hf => (List.mem_filter.mp ((mem_dedup _ _).mp hf)).2) (nodup_dedup _) h
+  simp only [waitPhase]
+  cases hp : procAll cfg ok rd _ (dedup (rd.fin.filter st.pending)) with
+  | error e =>
+    obtain ⟨o, st'⟩ := e
+    obtain ⟨f, w', hi, he⟩ := procAll_error cfg ok n rd hv1 _ _ st' o hw hp
+    have ho := ((procOne_error_iff cfg ok n rd st' f w' hv1 hi o).mp he).1
+    subst ho
+    exact Or.inr ⟨f, w', st', rfl, hi, he⟩
+  | ok st2 =>
+    obtain ⟨h2, hb2⟩ := inv_procAll cfg ok n rd hv1 _ _ st2 hw hp
+    simp only at hb2
+    left
+    simp only
+    by_cases hub : cfg.useBackups = true
+    · simp only [hub, if_true]
+      obtain ⟨st3, h3, hi3, hb3⟩ := launchAll_spec cfg ok n rd hub hv2 hfx.thr (pendOrderOf st2 rd) st2 h2
+        (pendOrderOf_pending st2 rd)
+      simp only [h3]
+      have hbat : st3.batches = st.batches := hb3.trans hb2
+      obtain ⟨r1, r2⟩ := refill_spec cfg ok n rd st3 hv3 hfx.bs hi3
+        (fun hc => by rw [hbat]; exact hh.nobatch hc) (fun b hb => hh.nonempty b (by rw [← hbat]; exact hb))
+      exact ⟨_, rfl, r1, r2⟩
+    · have hub : cfg.useBackups = false := by simpa using hub
+      simp only [hub]
+      obtain ⟨r1, r2⟩ := refill_spec cfg ok n rd st2 hv3 hfx.bs h2
+        (fun hc => by rw [hb2]; exact hh.nobatch hc) (fun b hb => hh.nonempty b (by rw [← hb2]; exact hb))
+      exact ⟨_, rfl, r1, r2⟩
+
+/-- what is known about every way the loop can stand or end after any number of rounds -/
+def Post (cfg : Cfg) (ok : Nat → Bool) (n : Nat) (rounds : List Round) : Status → Prop
+  | .running st => Inv cfg ok n st [] ∧ Head cfg st
+  | .finished (.done res) st => Inv cfg ok n st [] ∧ res = st.emitted ∧ anyPending st = false ∧ st.batches = []
+  | .finished (.raised f) st => ∃ w rd, rd ∈ rounds ∧ Inv cfg ok n st (f :: w) ∧
+      procOne cfg ok rd st f = .error (.raised f)
+  | .finished (.crash _) _ => False
+
+theorem Post_mono (cfg : Cfg) (ok : Nat → Bool) (n : Nat) (rd : Round) (rds : List Round) (s : Status)
+    (h : Post cfg ok n rds s) : Post cfg ok n (rd :: rds) s := by
+  cases s with
+  | running s => exact h
+  | finished o s =>
+    cases o with
+    | done res => exact h
+    | raised f =>
+      obtain ⟨w, r, hr, x⟩ := h
+      exact ⟨w, r, List.mem_cons_of_mem _ hr, x⟩
+    | crash y => exact h
+
+theorem runLoop_post (cfg : Cfg) (ok : Nat → Bool) (n : Nat) (hfx : IsFixed cfg) :
+    ∀ (rounds : List Round) (st : St), Inv cfg ok n st [] → Head cfg st →
+      Post cfg ok n rounds (runLoop cfg ok rounds st) := by
+  intro rounds
+  induction rounds with
+  | nil =>
+    intro st h hh
+    simp only [runLoop]
+    cases ha : anyPending st with
+    | true => exact ⟨h, hh⟩
+    | false => exact ⟨h, rfl, ha, hh.exhausted ha⟩
+  | cons rd rds ih =>
+    intro st h hh
+    simp only [runLoop]
+    cases ha : anyPending st with
+    | false => exact ⟨h, rfl, ha, hh.exhausted ha⟩
+    | true =>
+      simp only [if_true]
+      rcases stepRound_spec cfg ok n rd st hfx h hh with ⟨st', hs, hi, hh'⟩ | ⟨f, w, st', hs, hi, he⟩
+      · rw [hs]
+        exact Post_mono cfg ok n rd rds _ (ih st' hi hh')
+      · rw [hs]
+        exact ⟨w, rd, by simp, hi, he⟩
+
+theorem run_post (cfg : Cfg) (ok : Nat → Bool) (n : Nat) (t0 : Int) (rounds : List Round) (hfx : IsFixed cfg)
+    (hne : cfg.batchSize = none ∨ 0 < n) : Post cfg ok n rounds (run cfg ok n t0 rounds) := by
+  obtain ⟨st, hs, hi, hh⟩ := init_spec cfg ok n t0 (by
+    rcases hne with h | h
+    · exact Or.inl h
+    · exact Or.inr ⟨h, hfx.bs⟩)
+  unfold run
+  rw [hs]
+  exact runLoop_post cfg ok n hfx rounds st hi hh
+
+
+/-! ### the retry wrapper -/
+
+theorem retrying_spec (succ : Nat → Bool) : ∀ (budget k : Nat),
+    k ≤ (retrying succ budget k).2 ∧ (retrying succ budget k).2 ≤ k + budget ∧
+    (∀ j, k ≤ j → j < (retrying succ budget k).2 → succ j = false) ∧
+    (retrying succ budget k).1 = succ (retrying succ budget k).2 ∧
+    ((retrying succ budget k).1 = false → (retrying succ budget k).2 = k + budget) := by
+  intro budget
+  induction budget with
+  | zero =>
+    intro k
+    refine ⟨Nat.le_refl _, Nat.le_refl _, ?_, rfl, fun _ => rfl⟩
+    intro j h1 h2
+    simp only [retrying] at h2
+    omega
+  | succ b ih =>
+    intro k
+    simp only [retrying]
+    cases hk : succ k with
+    | true =>
+      simp only [if_true]
+      refine ⟨Nat.le_refl _, by omega, ?_, hk.symm, fun h => by cases h⟩
+      intro j h1 h2; omega
+    | false =>
+      simp only [Bool.false_eq_true, if_false]
+      obtain ⟨i1, i2, i3, i4, i5⟩ := ih (k + 1)
+      refine ⟨by omega, by omega, ?_, i4, fun h => by have := i5 h; omega⟩
+      intro j h1 h2
+      by_cases hj : j = k
+      · subst hj; exact hk
+      · exact i3 j (by omega) h2
+
 end Cubed.MapUnordered
